@@ -22,13 +22,15 @@ From MptV Require Import Base.Mem C06.Gen_Types C06.TypesModel.
 Local Open Scope N_scope.
 
 (* ---------- finite maps ---------- *)
+Definition is_eq (c : comparison) : bool := match c with Eq => true | _ => false end.
+
 Section FMap.
   Context {K V : Type} (cmp : K -> K -> comparison).
 
   Fixpoint fget (k : K) (m : list (K * V)) : option V :=
     match m with
     | [] => None
-    | (k', v) :: m => match cmp k k' with Eq => Some v | _ => fget k m end
+    | (k', v) :: m => if is_eq (cmp k k') then Some v else fget k m
     end.
 
   Fixpoint fput (k : K) (v : V) (m : list (K * V)) : list (K * V) :=
